@@ -228,11 +228,25 @@ def t2(model: Model, rep: Report):
                   what="a calibration pulse or measurement can overlap the heralded readout on the same qubit: " + "; ".join(bad), detail="calibration")
 
 
+def _truth_of(c: Term, L: Term, value: Term) -> Term:
+    """``if L:`` on a list is ``if len(L) > 0``: replace L where it stands as a condition of its own"""
+    from ..sym import t_and, t_not, t_or
+    if c == L:
+        return value
+    if c[0] == "not":
+        return t_not(_truth_of(c[1], L, value))
+    if c[0] == "and":
+        return t_and(*[_truth_of(x, L, value) for x in c[1]])
+    if c[0] == "or":
+        return t_or(*[_truth_of(x, L, value) for x in c[1]])
+    return c
+
+
 def _maybe_nonempty(ev: Evaluator, cond: Term, L: Term) -> bool:
     """Can the group over list L be non-empty on a path with condition cond?"""
     # lengths are integers: non-empty means len(L) = 1 + k with k >= 0; substitute and let the affine sign rules decide
     ln = ("call", "len", (L,), ())
-    c = resolve_max(subst(devar(cond), {ln: t_add(ONE, K)}))
+    c = resolve_max(subst(_truth_of(devar(cond), devar(L), TRUE), {ln: t_add(ONE, K)}))
     if c == FALSE:
         return False
     try:
